@@ -146,11 +146,22 @@ def run_cg(case):
         Pop = None if case["P"] == "none" else (lambda v: Pm @ v)
     x = x0.reshape(shape).copy()
     bb = b.reshape(shape).copy()
+    lay = case["rs"][-1] % 4
+    if lay == 1:
+        # the caller's x is a strided view of a larger array; b is read-only
+        big = np.zeros(tuple(2 * n_ for n_ in shape), dt)
+        sl = tuple(slice(None, None, 2) for _ in shape)
+        big[sl] = x
+        x = big[sl]
+        bb.flags.writeable = False
+    elif lay == 2 and len(shape) == 2:
+        x = np.asfortranarray(x)
     b_keep = bb.copy()
     sig = "|".join(map(str, ["cg", "c" if cplx else "r", case["spec"],
                              "k%d" % int(np.log10(case["cond"])), case["x0"], case["P"],
                              "linop" if (case["A"] == "linop" or col) and col else "func",
-                             case["mi"], case["tol"], case["layout"], "n%d" % min(n, 3)]))
+                             case["mi"], case["tol"], case["layout"], "n%d" % min(n, 3),
+                             "lay%d" % (case["rs"][-1] % 4)]))
     wit = dict(case)
     alg = sp.alg.ConjugateGradient(Aop, bb, x, P=Pop, max_iter=mi, tol=case["tol"])
     xstar = np.linalg.solve(M, b)
